@@ -5,9 +5,11 @@ CONSTANTS
   DualDims = {2}
   SliceBy = "grid"
   SwapBlockedSettings = FALSE
+  DtypeRule = "all"
   EmitJson = FALSE
 INVARIANT RhsLayout
 INVARIANT SolutionLayout
+INVARIANT RhsKeepsComplex
 INVARIANT SettingsHandedOn
 INVARIANT ReturnShape
 INVARIANT Emit
